@@ -13,7 +13,7 @@ from ..engine import Space
 PROPERTY = "C20"
 LEVEL = "model_checking"
 VARIANTS = ["fast", "tsan"]
-RULE = ("pool of 22 programs; (a) each twice; (b) all ordered pairs x {Q's VM destroyed, alive}; (c) controlled two-thread exploration for Q in the "
+RULE = ("pool of 26 programs (4 of them for VMs with different operator registrations); (a) each twice; (b) all ordered pairs x {Q's VM destroyed, alive}; (c) controlled two-thread exploration for Q in the "
         "state-touching subset x all P with <=1 (quick) / <=2 (thorough) preemptions at instruction boundaries; TSan free-running over a pair "
         "subset; states = scheduling points / VM runs, transitions = executions; non-trivial = pair with Q != P")
 ASSUMPTIONS = [
@@ -47,15 +47,24 @@ POOL = {
     "format": 'diag_log format ["%1 %2 %3", 1.25, "x", [1,2]]',
     "sort": "private _a = [3,1,2]; _a sort true; diag_log str [_a, [\"b\",\"a\"] call {_this sort true; _this}]",
 }
+# operator registrations differ between instances: the same word is an operator in one VM and a plain variable in another
+POOL.update({
+    "words-are-variables": 'allUnits = 3; vehicle = "left"; createMarker = [1]; diag_log str [allUnits, vehicle, createMarker]',
+    "words-are-operators": 'diag_log str [count allUnits, vehicle objNull, allUnits isEqualTo []]; createMarker ["iso_w", [0,0,0]]; diag_log str [allMapMarkers]',
+    "synth-words-are-variables": "vb5 = 1; vu = 2; vn = 3; diag_log str [vb5, vu, vn, vb5 + vu]",
+    "synth-words-are-operators": "diag_log str [1 vb5 2, vu 3, vn]",
+})
+OPSET = {"words-are-variables": "basic", "synth-words-are-operators": "synth"}    # default: full
 NAMES = list(POOL)
-STATEFUL = ["tofixed", "counter", "define", "types", "globals-set", "groups-many", "marker", "error"]
+STATEFUL = ["tofixed", "counter", "define", "types", "words-are-operators", "synth-words-are-operators", "globals-set", "groups-many", "marker", "error"]
 
 
 def run_vm_sequence(ws, seq):
     """seq: list of (program name, keep_alive) run one after another in fresh VMs of ONE process; returns per-VM logs."""
     steps = []
     for i, (name, keep) in enumerate(seq):
-        steps.append({"op": "vm", "id": i, "ops": "full"})
+        o = OPSET.get(name, "full")
+        steps.append({"op": "vm", "id": i, "ops": "full" if o == "synth" else o, "synth": o == "synth"})
         steps.append({"op": "sqf", "id": i, "text": POOL[name], "preprocess": True, "path": "p.sqf"})
         steps.append({"op": "exec", "id": i, "action": "start"})
         steps.append({"op": "exec", "id": i, "action": "abort"})
@@ -119,7 +128,7 @@ def gen_conc(qs):
 
 def check_conc(ws, case, bound=1):
     q, p = case
-    r = ws.call({"mode": "mt", "fork": True, "timeout_ms": 240000, "what": "isolation", "p": POOL[p], "q": POOL[q], "bound": bound, "max_executions": 3000}, variant="fast")
+    r = ws.call({"mode": "mt", "fork": True, "timeout_ms": 240000, "what": "isolation", "p": POOL[p], "q": POOL[q], "p_ops": OPSET.get(p, "full"), "q_ops": OPSET.get(q, "full"), "bound": bound, "max_executions": 3000}, variant="fast")
     if r["outcome"] != "ok":
         return [("C20|concurrent|q=%s|%s" % (q, r.get("kind", r["outcome"])), "P=%s beside Q=%s: %s" % (p, q, r.get("kind", r["outcome"])), None, case)], {"n": 1}
     res = r["result"]
@@ -135,15 +144,15 @@ def check_conc2(ws, case):
 
 
 def gen_tsan():
-    for q in ["tofixed", "counter", "types", "groups-many", "hashmap", "format"]:
-        for p in ["numbers", "counter", "types", "group", "hashmap", "define"]:
+    for q in ["tofixed", "counter", "types", "groups-many", "hashmap", "format", "words-are-operators", "synth-words-are-operators"]:
+        for p in ["numbers", "counter", "types", "group", "hashmap", "define", "words-are-variables", "synth-words-are-variables"]:
             yield [q, p]
 
 
 def check_tsan(ws, case):
     q, p = case
     from .c19 import parse_tsan
-    r = ws.call({"mode": "mt", "fork": True, "timeout_ms": 120000, "what": "isolation-free", "p": POOL[p], "q": POOL[q], "repeat": 5}, variant="tsan")
+    r = ws.call({"mode": "mt", "fork": True, "timeout_ms": 120000, "what": "isolation-free", "p": POOL[p], "q": POOL[q], "p_ops": OPSET.get(p, "full"), "q_ops": OPSET.get(q, "full"), "repeat": 5}, variant="tsan")
     info = {"n": 1, "nontrivial": 1, "states": 5, "transitions": 5, "executions": 5}
     err = r.get("stderr", "")
     if r["outcome"] != "ok" and "ThreadSanitizer" not in err:
@@ -157,5 +166,5 @@ def check_tsan(ws, case):
 def spaces(tier):
     q = tier == "quick"
     return [Space("sequential-pairs", gen_pairs, check_pair, variant="fast", describe="each program twice; all ordered pairs, Q's VM destroyed or alive"),
-            Space("concurrent-controlled", gen_conc(STATEFUL[:4] if q else STATEFUL), check_conc if q else check_conc2, variant="fast", describe="P beside Q on two threads, preemption-bounded interleavings at instruction boundaries"),
+            Space("concurrent-controlled", gen_conc(STATEFUL[:6] if q else STATEFUL), check_conc if q else check_conc2, variant="fast", describe="P beside Q on two threads, preemption-bounded interleavings at instruction boundaries"),
             Space("tsan-free-running", gen_tsan, check_tsan, variant="tsan", describe="pairs free-running on two threads under ThreadSanitizer")]
